@@ -146,7 +146,7 @@ def impl(case):
 
 
 # --------------------------------------------------------------------------- parser-built (C01-grammar) models
-# (script, NAMES as fsic orders them) — the inner _evaluate is the code fsic generates; one call per case, so that every
+# (script, the set of NAMES; their order is read from the generated class in impl_parsed) — the inner _evaluate is the code fsic generates; one call per case, so that every
 # period is solved at most once and the recorded columns determine the action script handed to the Coq model
 PARSED = [
     ('Y = C + G\nC = 0.6 * Y', ['Y', 'C', 'G']),
@@ -165,12 +165,15 @@ def impl_parsed(case):
     import scripted_tracer as st
     script, want = PARSED[case['model']]
     cls, names = st.make_parsed_class(script, case.get('trace_variables'))
-    if names != want:
-        raise AssertionError('NAMES of %r are %s, the case generator assumed %s' % (script, names, want))
+    # the ORDER of the names is fsic's (first appearance over the whole script), read from the generated class; the
+    # generator only assumed WHICH names exist (it drew one row of start values per name, listed in `want` order)
+    if sorted(names) != sorted(want) or len(set(names)) != len(names):
+        raise AssertionError('NAMES of %r are %s, the case generator assumed the set %s' % (script, names, want))
+    vals0 = [case['vals'][want.index(nm)] for nm in names]
     n = case['n']
     span = list(range(2000, 2000 + n))
-    m = st.instantiate_parsed(cls, names, span, case['vals'])
-    u = st.instantiate_parsed(cls, names, span, case['vals'])
+    m = st.instantiate_parsed(cls, names, span, vals0)
+    u = st.instantiate_parsed(cls, names, span, vals0)
     nv = len(names)
 
     def snap(x):
@@ -211,7 +214,7 @@ def impl_parsed(case):
                 raise AssertionError('period %s visited twice or passes out of order' % p)
             ps.append(acts)
     derived = {'nvars': nv, 'check': [names.index(x) for x in m.check], 'endo': [names.index(x) for x in m.endogenous],
-               'lags': int(m.lags), 'leads': int(m.leads), 'scripts': scripts}
+               'lags': int(m.lags), 'leads': int(m.leads), 'scripts': scripts, 'vals': vals0}
     return {'steps': [s], 'derived': derived}
 
 
@@ -416,7 +419,8 @@ def _check_shapes(case, call, ci, s, prev, names, periods, bad):
     n = case['n']
     # passes recorded by the Recorder layer for this call, per period position
     cols = {}
-    for kind, t, k, col in s['columns']:
+    for rec_ in s['columns']:
+        kind, t, k, col = rec_[:4]                   # ('pass-raise' records of parser-built models carry the class name too)
         p = t if t >= 0 else t + n
         cols.setdefault(p, {})[(kind, k)] = col
     # which periods were attempted, and how each ended
